@@ -405,7 +405,7 @@ def _contains_sink_call(prog, stmt, rs, header_only=True):
 
 def rule_file2(prog, rep, tier, anchor="conformance._conform_filename"):
     """FILE-2: on every path of _conform_filename the returned changed-flag is true iff a write lies on the path."""
-    fi = prog.fn_role(anchor, "conform_file") if anchor == "conformance._conform_filename" else prog.fn(anchor)
+    fi = prog.inl(prog.fn_role(anchor, "conform_file") if anchor == "conformance._conform_filename" else prog.fn(anchor))
     rs = reaches_sink(prog)
     cfg = CFG(fi.node)
     paths = [p for p in cfg.paths() if p[-1][0].kind == "RETURN"]
@@ -428,12 +428,18 @@ def rule_file2(prog, rep, tier, anchor="conformance._conform_filename"):
         writes = [(w, i) for w, i in writes if w is not None]
         W = bool(writes)
         flag_expr = flag
-        if isinstance(flag, ast.Name):
-            # last assignment to the name on the path
+        hops = 0
+        while isinstance(flag_expr, ast.Name) and hops < 5:
+            # last assignment to the name on the path (copies of copies are followed)
+            hops += 1
+            nxt = None
             for node, _ in path:
                 s = node.stmt
-                if isinstance(s, ast.Assign) and any(isinstance(t, ast.Name) and t.id == flag.id for t in s.targets):
-                    flag_expr = s.value
+                if isinstance(s, ast.Assign) and any(isinstance(t, ast.Name) and t.id == flag_expr.id for t in s.targets):
+                    nxt = s.value
+            if nxt is None or nxt is flag_expr:
+                break
+            flag_expr = nxt
         desc = "path[%s] -> return %s" % (
             ",".join("%s%s" % ("" if l[1] else "!", src(l[0], 40)) for n, l in path if l is not None and l[0] not in ("iter", "except")),
             src(flag_expr, 40))
@@ -474,7 +480,16 @@ def rule_file2(prog, rep, tier, anchor="conformance._conform_filename"):
                 if isinstance(s, ast.Assign) and any(isinstance(t, ast.Name) for t in s.targets) and not isinstance(s.value, ast.Constant):
                     if any(isinstance(r, ast.Return) and isinstance(r.value, ast.Tuple) and len(r.value.elts) == 2 and isinstance(r.value.elts[1], ast.Name)
                            and r.value.elts[1].id in [t.id for t in s.targets if isinstance(t, ast.Name)] for r in ast.walk(fi.node)):
-                        flags.add(dump(s.value))
+                        v = s.value
+                        for _ in range(4):
+                            if not isinstance(v, ast.Name):
+                                break
+                            ds = [s2.value for s2 in ast.walk(fi.node) if isinstance(s2, ast.Assign) and any(isinstance(x, ast.Name) and x.id == v.id for x in s2.targets)
+                                  and not isinstance(s2.value, ast.Constant)]
+                            if len(ds) != 1:
+                                break
+                            v = ds[0]
+                        flags.add(dump(v))
             t = node.test
             pos = node.body.value == "modified"
             if isinstance(t, ast.UnaryOp) and isinstance(t.op, ast.Not):
@@ -493,7 +508,7 @@ def rule_file2(prog, rep, tier, anchor="conformance._conform_filename"):
 
 def rule_file2b(prog, rep, tier, anchor="conformance._conform_filename"):
     """FILE-2b: rewriting an existing file is control-dependent on an AST inequality test."""
-    fi = prog.fn_role(anchor, "conform_file")
+    fi = prog.inl(prog.fn_role(anchor, "conform_file"))
     rs = reaches_sink(prog)
     n = 0
     for node in ast.walk(fi.node):
@@ -923,7 +938,7 @@ def rule_file7(prog, rep, tier, worker="sync_properties.sync_properties", per_pa
 def rule_file2c(prog, rep, tier, anchor="conformance._conform_filename"):
     """FILE-2c (C09): a target that exists and whose definition was found is left unwritten only because its syntax tree
     equals the replacement (or the transformer reported no replacement); any other reason to skip leaves a stale target."""
-    fi = prog.fn_role(anchor, "conform_file") if anchor == "conformance._conform_filename" else prog.fn(anchor)
+    fi = prog.inl(prog.fn_role(anchor, "conform_file") if anchor == "conformance._conform_filename" else prog.fn(anchor))
     rs = reaches_sink(prog)
     cfg = CFG(fi.node)
     n = 0
